@@ -13,7 +13,7 @@ import json
 
 from ..common import MachineryError, Verdict, require, scratch
 from ..corpus import library
-from ..proto import default_corpus, prepare_world, run_drivers_parallel
+from ..proto import default_corpus, full_corpus, prepare_world, run_drivers_parallel
 from .. import common
 from ._proto_common import short
 from .c02 import collect
@@ -36,10 +36,10 @@ def _kinds(proj, out):
 
 def run(tier, corrupt=False):
     v = Verdict(PROP, tier)
-    progs = default_corpus()
     types = library()
     hd = 2 if tier == "quick" else 3
     with scratch("c19-") as tmp:
+        progs = full_corpus(tmp, tier)
         recs, stats = collect(tier, tmp, progs, types, "mut", rich=False, properties=("PImmutable",), tag="mut", hdepth=hd)
         recs = [r for r in recs if r["kind"] == "mut"]
         require(len(recs) > 500, f"too few histories from TLC ({len(recs)})")
